@@ -438,10 +438,10 @@ def impl(c):
             return _show(IPNetwork((v, p), implicit_prefix=implicit, version=ver, flags=flags))
         if op == 'netstr':
             _, ver, v, p = a
-            return hexs(str(IPNetwork((v, p), version=ver)))
+            return hexs(str(common.make_net(ver, v, p)))      # fresh, lived-in (moved here by +=, -=, the setters) or a clone
         if op == 'str_rt':
             _, ver, v, p, pver = a
-            s = str(IPNetwork((v, p), version=ver))
+            s = str(common.make_net(ver, v, p))
             return hexs(s) + ' ' + _show(IPNetwork(s, version=pver))
         if op == 'abbrev':
             return hexs(netaddr.cidr_abbrev_to_verbose(a[1]))
